@@ -30,15 +30,15 @@ def lex_identifier(s: "Scanner") -> None:
 
 
 def lex_quoted_string(s: "Scanner") -> None:
-    c = s.next()
-    while c != "'":
-        if c == "\n" or c is None:
+    while True:
+        if s.peek() in ("\n", EOF):
+            # the position is taken before the line ends, so that it points at the opening quote.
             raise ScannerException("Unterminated String", s.get_position())
-
+        c = s.next()
+        if c == "'":
+            break
         if c == "\\" and s.peek() == "'":
             s.next()
-
-        c = s.next()
 
     s.emit(TokenType.QUOTED_STRING)
 
@@ -128,7 +128,8 @@ def lex_opcode_size(s: "Scanner") -> None:
 
         return lex_operand(s)
     else:
-        s.next()
+        if s.peek() not in ("\n", EOF):
+            s.next()
         raise ScannerException("Invalid Size Specifier", s.get_position())
 
 
